@@ -52,8 +52,10 @@ def oracle_value(db, d, rho, op, h0, tau):
     return tr.subst(m2)
 
 
-def setup(db, classes):
+def setup(db, classes, tag='', statics=None):
     hooks = sm.SquidsHooks(NSUN, order=sm.OrderOracle(classes, witness=getattr(classes, 'witness', None)))
+    hooks.solver_tag = tag
+    hooks.statics = statics
     this, hooks, it = sm.new_solver(db, NX, NSUN, NRHOS, NSC, hooks=hooks)
     xv = this.value.fields['x'].value
     for k in range(NX):
@@ -254,6 +256,56 @@ def check_interpolating(db, rep):
     rep.floor('C.range.both', n_range, 5)
 
 
+def check_history(db, rep):
+    """a query is a function of the solver it is asked of and of its arguments: what the scratch buffer (the explicit one,
+    or the per-thread one inside the short overloads) was used for before - by another solver object whose H0 differs,
+    at the same x or at another one - must not show in the answer"""
+    unit = db.unit('SQuIDS')
+    specs = [('GetExpectationValueD', 3, None, 'value'),
+             ('GetExpectationValueD', 4, lambda f: 'expectationValueDBuffer' in f['params'][3]['t'], 'value'),
+             ('GetExpectationValueD', 5, None, 'avg'),
+             ('GetExpectationValueD', 6, None, 'avg')]
+    nodes = ['X%d' % k for k in range(NX)]
+    n = 0
+    for name, npar, pred, kind in specs:
+        f = db.one('SQuIDS', 'squids::SQuIDS::' + name, npar, pred)
+        for prior in ('same x', 'another x'):
+            n += 1
+            site = '%s/%d/after a query on another solver at %s' % (name, npar, prior)
+            classes = [[nodes[0], 'Qp'], ['Q']] + [[m] for m in nodes[1:]] if prior == 'another x' else [[nodes[0]], ['Q']] + [[m] for m in nodes[1:]]
+            statics = {}
+            other, hooks_b, it_b = setup(db, classes, tag="'", statics=statics)
+            this, hooks_a, it_a = setup(db, classes, tag='', statics=statics)
+            buf = None
+            if npar in (4, 6):
+                fb = db.one('SQuIDS', 'squids::SQuIDS::expectationValueDBuffer::expectationValueDBuffer', 1)
+                buf = Cell(Obj('squids::SQuIDS::expectationValueDBuffer', None, 'buf'), None, 0, 'buf')
+                it_b.call(fb, buf, [NSUN])
+
+            def args_for(q):
+                opc, _ = op_cell()
+                a = [opc, NRH, q] + ([buf] if buf is not None else [])
+                if npar in (5, 6):
+                    a += [Poly.var('scale'), make_vector('avr', NSUN * (NSUN - 1) // 2, lambda k: 0)]
+                return a
+            try:
+                it_b.call(f, other, args_for(Poly.var('Q') if prior == 'same x' else Poly.var('Qp')))
+                r = it_a.call(f, this, args_for(Poly.var('Q')))
+            except Thrown as t:
+                rep.fail('D.history', site, unit.loc(t.node), 'the value a fresh buffer gives', 'throw: %s' % t.what, f['name'])
+                continue
+            want = interp_oracle(db, 0, 'value')
+            rv = no_avg_leaf(r) if kind == 'avg' else r
+            import guarded
+            if isinstance(rv, (Poly, ITE)) and guarded.same(rv, want):
+                rep.ok('D.history')
+            else:
+                detail = '; '.join(rv.diff_terms(want, limit=3)) if isinstance(rv, Poly) else guarded.explain(rv, want)
+                rep.fail('D.history', site, unit.loc(f), 'the value a fresh buffer gives: interpolated state of this solver, H0 of this solver at x',
+                         'the answer depends on the earlier use of the buffer: ' + detail[:300], f['name'])
+    rep.floor('D.history', n, 8)
+
+
 def run(db, rep, tier):
     rep.trusted += ['clang 14 AST of /repo sources', 'sqdump extractor + abstract interpreter',
                     'evolution and trace kernels: their tables are C02/C03 obligations, reused here as the meaning of Evolve and of the scalar product',
@@ -262,10 +314,12 @@ def run(db, rep, tier):
     rep.declined += ['numerical value of the trace (rounding)']
     check_node_forms(db, rep)
     check_interpolating(db, rep)
+    check_history(db, rep)
     # the queries turn the stored state back by t - t_ini: the clock must hold the elapsed time (its handling in
     # Evolve is C10's rule D.clock, repeated here), and the averaging overloads must use, in every dimension, the same
     # pair phases as the plain table (C11's rules A.avg.term / A.avg.thresh, repeated here)
     import c10
     import c11
     c10.check_clock(db, rep)
+    c10.check_moves(db, rep)
     c11.check_avg(db, rep)
